@@ -436,7 +436,7 @@ impl PartitionSampler {
     /// Creates a new `PartitionSampler` instance.
     ///
     /// Partitions the given validators into `num_bins` bins of equal stake.
-    /// Partitioning is done randomly by splitting a randomly permuted list of nodes.
+    /// Partitioning is done by splitting a pseudo-randomly (but deterministically) permuted list of nodes.
     pub fn new(validators: Vec<ValidatorInfo>, num_bins: usize) -> Self {
         if num_bins == 0 {
             return Self {
@@ -452,7 +452,9 @@ impl PartitionSampler {
         let total_stake: Stake = validators.iter().map(|v| v.stake).sum();
         let stake_per_bin = total_stake.div_ceil(num_bins as u64);
         let mut validators_random = validators;
-        validators_random.shuffle(&mut rand::rng());
+        // The permutation must be the same on every node and for every instance
+        // (all nodes have to derive identical bins), so it is drawn from a fixed seed.
+        validators_random.shuffle(&mut StdRng::from_seed([0; 32]));
 
         // partition into bins
         let mut current_bin = 0;
